@@ -30,8 +30,8 @@ def sf_old(sx, node, st):
     s2 = s.fork()
     s2.pc = st.pc
     v = sx.ev1(node.args[0], s2)
-    if isinstance(v, Ref) and not isinstance(s2.heap[v.cell], dict):
-        c = s2.heap[v.cell]
+    if isinstance(v, Ref) and not isinstance(s2.getcell(v.cell), dict):
+        c = s2.getcell(v.cell)
         if isinstance(c, tuple):
             raise Unsupported("old() of an untyped empty container", node)
         v = c
@@ -114,7 +114,7 @@ def _len(sx, args, kw, st, node):
         if hasattr(v.v, "__pyvc_len__"):
             return v.v.__pyvc_len__(sx, st, node)
     if isinstance(v, Ref):
-        c = st.heap[v.cell]
+        c = st.getcell(v.cell)
         if isinstance(c, tuple):
             return ok(st, V.mk_int(0))
         if isinstance(c, dict):
@@ -339,7 +339,7 @@ def iter_elems(sx, v, st, node):
             return v.v.__pyvc_iter__(sx, st, node)
         raise Unsupported("iteration over concrete %r" % (v.v,), node)
     if isinstance(v, Ref):
-        c = st.heap[v.cell]
+        c = st.getcell(v.cell)
         if isinstance(c, tuple):
             return ("conc", [])
         if isinstance(c, dict):
@@ -490,8 +490,8 @@ def _iter(sx, args, kw, st, node):
 
 def _next(sx, args, kw, st, node):
     it = args[0]
-    if isinstance(it, Ref) and isinstance(st.heap[it.cell], dict) and "seq" in st.heap[it.cell]:
-        c = st.heap[it.cell]
+    if isinstance(it, Ref) and isinstance(st.getcell(it.cell), dict) and "seq" in st.getcell(it.cell):
+        c = st.getcell(it.cell)
         seq, pos = c["seq"], c["pos"]
         t = seq.ty
         done = z3.simplify(pos.term >= t.n(seq.term))
@@ -500,7 +500,7 @@ def _next(sx, args, kw, st, node):
             outs.append(R(st.fork().assume(done), None, Exc("StopIteration")))
         if not z3.is_true(done):
             st.assume(z3.Not(done))
-            st.heap[it.cell]["pos"] = Val(V.Int, z3.simplify(pos.term + 1))
+            st.getcell(it.cell)["pos"] = Val(V.Int, z3.simplify(pos.term + 1))
             outs.append(R(st, Val(t.elem, t.at(seq.term, pos.term))))
         return outs
     raise Unsupported("next() of %r" % (it,), node)
@@ -575,7 +575,7 @@ def call_method(sx, obj, attr, args, kwargs, st, node):
             return ok(st, Conc(tuple(Conc((V.mk_str(k), v)) for k, v in d.items())))
         raise Unsupported("method %s of concrete dict" % attr, node)
     if isinstance(obj, Ref):
-        content = st.heap[obj.cell]
+        content = st.getcell(obj.cell)
         if isinstance(content, tuple):
             # untyped empty list/set/dict
             kind = content[0]
@@ -610,7 +610,7 @@ def call_method(sx, obj, attr, args, kwargs, st, node):
                 raise Unsupported("method %s on empty %s" % (attr, kind), node)
         if isinstance(content, dict):
             raise Unsupported("method %s on object %r" % (attr, obj.ty), node)
-        if isinstance(st.heap[obj.cell], Val):
+        if isinstance(st.getcell(obj.cell), Val):
             return mutable_method(sx, obj, attr, args, kwargs, st, node)
     if isinstance(obj, Conc):
         raise Unsupported("method %s of %r" % (attr, obj), node)
@@ -636,6 +636,10 @@ def call_method(sx, obj, attr, args, kwargs, st, node):
     if isinstance(t, V.Dict) and attr == "get":
         k = sx.coerce(args[0], t.k, st)
         dflt = args[1] if len(args) > 1 else NONE
+        if isinstance(dflt, Ref) and isinstance(st.heap.get(dflt.cell), tuple):
+            # literal {} / [] default: the empty value of the mapped type
+            if isinstance(t.v, (V.Dict, V.List)):
+                dflt = Val(t.v, t.v.empty())
         has = z3.Select(t.dom(obj.term), k.term)
         got = Val(t.v, z3.Select(t.map(obj.term), k.term))
         m = sx.ite(has, got, dflt, st)
@@ -650,17 +654,17 @@ def call_method(sx, obj, attr, args, kwargs, st, node):
 
 def mutable_method(sx, ref, attr, args, kwargs, st, node):
     B = _B()
-    c = st.heap[ref.cell]
+    c = st.getcell(ref.cell)
     t = c.ty
     if isinstance(t, V.List):
         n = t.n(c.term)
         arr = t.arr(c.term)
         if attr == "append":
             v = sx.coerce(args[0], t.elem, st)
-            st.heap[ref.cell] = Val(t, t.mk(z3.Store(arr, n, v.term), n + 1))
+            st.setcell(ref.cell, Val(t, t.mk(z3.Store(arr, n, v.term), n + 1)))
             return ok(st, NONE)
         if attr == "clear":
-            st.heap[ref.cell] = Val(t, t.empty())
+            st.setcell(ref.cell, Val(t, t.empty()))
             return ok(st, NONE)
         if attr in ("insert", "appendleft"):
             if attr == "insert":
@@ -675,8 +679,8 @@ def mutable_method(sx, ref, attr, args, kwargs, st, node):
             i = z3.Int(fresh_name("ii"))
             st.assume(t.n(r.term) == n + 1)
             st.assume(t.at(r.term, 0) == v.term)
-            st.assume(z3.ForAll([i], z3.Implies(z3.And(i >= 0, i < n), t.at(r.term, i + 1) == z3.Select(arr, i))))
-            st.heap[ref.cell] = r
+            st.assume(z3.ForAll([i], z3.Implies(z3.And(i >= 1, i < n + 1), t.at(r.term, i) == z3.Select(arr, i - 1))))
+            st.setcell(ref.cell, r)
             return ok(st, NONE)
         if attr == "pop":
             outs = []
@@ -691,16 +695,16 @@ def mutable_method(sx, ref, attr, args, kwargs, st, node):
                 i = z3.Int(fresh_name("pi"))
                 st.assume(t.n(r.term) == n - 1)
                 st.assume(z3.ForAll([i], z3.Implies(z3.And(i >= 0, i < n - 1), t.at(r.term, i) == z3.Select(arr, i + 1))))
-                st.heap[ref.cell] = r
+                st.setcell(ref.cell, r)
                 outs.append(R(st, Val(t.elem, z3.Select(arr, 0))))
             else:
-                st.heap[ref.cell] = Val(t, t.mk(arr, n - 1))
+                st.setcell(ref.cell, Val(t, t.mk(arr, n - 1)))
                 outs.append(R(st, Val(t.elem, z3.Select(arr, n - 1))))
             return outs
         if attr == "extend":
             kind, payload = iter_elems(sx, args[0], st, node)[:2]
             if kind == "list" and payload.ty == t:
-                st.heap[ref.cell] = B.list_concat(sx, c, payload, st)
+                st.setcell(ref.cell, B.list_concat(sx, c, payload, st))
                 return ok(st, NONE)
             if kind == "conc":
                 for p in payload:
@@ -716,27 +720,27 @@ def mutable_method(sx, ref, attr, args, kwargs, st, node):
     if isinstance(t, V.Set):
         if attr == "add":
             v = sx.coerce(args[0], t.elem, st)
-            st.heap[ref.cell] = Val(t, z3.Store(c.term, v.term, True))
+            st.setcell(ref.cell, Val(t, z3.Store(c.term, v.term, True)))
             return ok(st, NONE)
         if attr == "clear":
-            st.heap[ref.cell] = Val(t, t.empty())
+            st.setcell(ref.cell, Val(t, t.empty()))
             return ok(st, NONE)
         if attr == "discard":
             v = sx.coerce(args[0], t.elem, st)
-            st.heap[ref.cell] = Val(t, z3.Store(c.term, v.term, False))
+            st.setcell(ref.cell, Val(t, z3.Store(c.term, v.term, False)))
             return ok(st, NONE)
         if attr == "update":
             kind, payload = iter_elems(sx, args[0], st, node)[:2]
             other = sx.deref(args[0], st)
             if isinstance(other, Val) and other.ty == t:
                 x = z3.Const(fresh_name("su"), t.elem.sort())
-                st.heap[ref.cell] = Val(t, z3.Lambda([x], z3.Or(z3.Select(c.term, x), z3.Select(other.term, x))))
+                st.setcell(ref.cell, Val(t, z3.Lambda([x], z3.Or(z3.Select(c.term, x), z3.Select(other.term, x)))))
                 return ok(st, NONE)
             if kind == "list" and payload.ty.elem == t.elem:
                 lt = payload.ty
                 x = z3.Const(fresh_name("su"), t.elem.sort())
                 i = z3.Int(fresh_name("sui"))
-                st.heap[ref.cell] = Val(t, z3.Lambda([x], z3.Or(z3.Select(c.term, x), z3.Exists([i], z3.And(i >= 0, i < lt.n(payload.term), lt.at(payload.term, i) == x)))))
+                st.setcell(ref.cell, Val(t, z3.Lambda([x], z3.Or(z3.Select(c.term, x), z3.Exists([i], z3.And(i >= 0, i < lt.n(payload.term), lt.at(payload.term, i) == x))))))
                 return ok(st, NONE)
             raise Unsupported("set.update with %s" % kind, node)
         return call_method(sx, c, attr, args, kwargs, st, node)
@@ -758,11 +762,11 @@ def mutable_method(sx, ref, attr, args, kwargs, st, node):
                     outs.append(R(st.fork().assume(z3.Not(has)), None, Exc("KeyError")))
                 st.assume(has)
                 res = got
-            st.heap[ref.cell] = Val(t, t.mk(z3.Store(t.dom(c.term), k.term, False), t.map(c.term)))
+            st.setcell(ref.cell, Val(t, t.mk(z3.Store(t.dom(c.term), k.term, False), t.map(c.term))))
             outs.append(R(st, res))
             return outs
         if attr == "clear":
-            st.heap[ref.cell] = Val(t, t.empty())
+            st.setcell(ref.cell, Val(t, t.empty()))
             return ok(st, NONE)
     m = sx.reg.value_method(sx, ref, attr, args, kwargs, st, node)
     if m is not None:
